@@ -74,7 +74,18 @@ func Open(dir, dbName string, opt *option.DatabaseOption, shardIDs []models.Shar
 }
 
 // Close closes the engine.
-func (b *Box) Close() { b.Engine.Close() }
+func (b *Box) Close() {
+	b.Engine.Close()
+	// lindb never stops the three worker pools of a database; a harness that opens many engines would leak nine
+	// goroutines per database
+	if b.DB != nil {
+		if p := b.DB.ExecutorPool(); p != nil {
+			p.Filtering.Stop()
+			p.Grouping.Stop()
+			p.Scanner.Stop()
+		}
+	}
+}
 
 // Point is one written data point of one simple field (several points may share metric, tags, timestamp).
 type Point struct {
